@@ -109,7 +109,7 @@ def run_live_closure(case):
         fw = Flumine(client=client)
         log = []
         strategies = []
-        all_markets = sorted({s[1] for s in case["steps"] if s[0] in ("book", "cleared")})
+        all_markets = sorted({s[1] for s in case["steps"] if s[0] in ("book", "cleared", "cleared_orders")})
         for i, sp in enumerate(case["strategies"]):
             mf = {} if sp.get("empty") else {"marketIds": sp["markets"]}
             st = Strat(i, log, market_filter=mf, name="s%d" % i)
@@ -136,6 +136,11 @@ def run_live_closure(case):
                 m = fw.markets.markets.get(step[1])
                 if m is not None:
                     m.orders_cleared.append("u"); m.market_cleared.append("u")
+            elif step[0] == "cleared_orders":
+                # what the closure worker does after fetching one client's cleared ORDERS (the cleared-market summary is still to be fetched)
+                m = fw.markets.markets.get(step[1])
+                if m is not None:
+                    m.orders_cleared.append("u")
             else:
                 _, mid, status = step
                 versions[mid] = versions.get(mid, 0) + 1
@@ -155,7 +160,7 @@ def run_live_closure(case):
             snap = {}
             for mid in all_markets:
                 m = fw.markets.markets.get(mid)
-                snap[mid] = None if m is None else {"closed": m.closed, "flags": bool(m.orders_cleared or m.market_cleared),
+                snap[mid] = None if m is None else {"closed": m.closed, "flags": bool(m.orders_cleared or m.market_cleared), "flags_orders": list(m.orders_cleared), "flags_market": list(m.market_cleared),
                                                      "ctx": sorted(i for i, s in enumerate(strategies) if any(k[0] == mid for k in s._invested)),
                                                      "mw": mid in mw.state}
             out.append({"log": list(log), "markets": snap, "streams": {str(sid): [i for i, st in enumerate(strategies) if sid in st.stream_ids] for sid in feeds}})
